@@ -124,6 +124,9 @@ type Spec struct {
 	// path (symlinks in the directory part resolved, as `pwd -P` / realpath
 	// would) instead of the path it was handed.
 	PhysicalPathsPct int `json:"physical_paths_pct,omitempty"`
+	// PathInStringPct: chance that a string-typed output leaf holds the path of a
+	// file the stage wrote.
+	PathInStringPct int `json:"path_in_string_pct,omitempty"`
 	// SymlinkedParent: the pipestance directory is reached through a symlinked
 	// parent directory (<case>/link -> <case>/real).
 	SymlinkedParent bool `json:"symlinked_parent,omitempty"`
